@@ -17,6 +17,7 @@ KEYS = {  # key in the subject -> label
     "adopts that term": "S17",
     "follows a truncated suffix": "S18",
     "counts TrailingLogs from the entries": "S19",
+    "keeps the configurations of the log entries it retains": "S20",
     "verif: observation hooks": "HOOKS",
 }
 log = subprocess.check_output(["git", "-C", "/repo", "log", "--format=%h %s", "-n", "30"], text=True).splitlines()
